@@ -136,3 +136,14 @@ func VerifRightsTwin() {
 	m.Save(&User{Name: "bob", PullAccess: "/a"}, true)
 	symapi.Assert(m.Get("bob").ValidatePermission("/b", PullRight), "twin-any-path-permitted")
 }
+
+// In VerifTokens security.NewSecret is replaced by this: secrets are pairwise distinct
+// concrete strings (what 128 random bits give except with negligible probability), so that
+// the token table can be compared with the reference model; that a token is not derivable
+// from disclosed identifiers is VerifTokenNotDerivable's subject.
+var verifSecretN int
+
+func verifSecretStub() string {
+	verifSecretN++
+	return "secret-" + string(rune('a'+verifSecretN/26)) + string(rune('a'+verifSecretN%26))
+}
